@@ -29,6 +29,8 @@ func C07(c *Ctx) {
 	if g == nil {
 		return
 	}
+	r.Rule("C07-j", "the marks of the left-recursion analysis have one owner: Visited and Nullable are stored only by the NullableVisit methods, LeftRecursive and Leader only by ComputeLeftRecursives (or a helper only they call), and no composite literal sets them; Rule.NullableVisit reads a set Visited as `being visited` and answers `not nullable` without looking, so a mark left behind by another pass hides every path through that rule")
+	analysisMarkOwners(c, g, "C07-j")
 	kinds, _ := c.exprKinds()
 	if len(kinds) != 18 {
 		r.Fatal("expected 18 expression kinds, found %d", len(kinds))
